@@ -10,6 +10,9 @@ TEST_CMD = "cd /repo && /venv/bin/python -m pytest -ra -q -p no:cacheprovider --
 
 # id -> (level, technique, text, note, design_ref)
 CHECKS = {
+ "C20": ("model_checking", "TLC on spec/Trainer.tla (safety + liveness) and TLC trace validation (spec/TrainerTrace.tla) of executions recorded from the real Trainer",
+         "every recorded Trainer.fit/test run over the (E, NB, NV, NT, evaluator, callbacks) grid must be a behaviour of the specification; corrupted traces must be rejected; history keys/lengths, epoch-loss mean and Evaluator accuracy compared by the driver",
+         "observation through proxies and wrappers outside the repository; one model architecture", "5/C20"),
  "C13": ("model_checking", "TLC on spec/NormDrop.tla (exact rational running statistics; Dropout mask as nondeterministic choice) + replay of every history; the driver follows the spec branch (mask) that explains each Dropout output",
          "all train/eval/set-stats/forward histories up to MaxHist for every BatchNorm constructor option on 2-d/3-d/4-d batches; Dropout forward/backward mask consistency for p in {0,1/2,3/4,1}",
          "normalised value interpreted with mpmath; independence/probability of the mask is a fixed-seed statistical side check", "5/C13"),
